@@ -1001,8 +1001,11 @@ class DiskTreeTransform(TreeTransformBase):
         super().adjust_path(name, parent, trans_id)
         if trans_id in self._limbo_files and trans_id not in self._needs_rename:
             self._rename_in_limbo([trans_id])
-            if previous_parent != parent:
-                self._limbo_children[previous_parent].remove(trans_id)
+            if previous_parent != parent or trans_id in self._needs_rename:
+                # Either the entry left its parent's limbo directory, or it
+                # had to fall back to a top-level limbo name: it is no longer
+                # a limbo child of the previous parent.
+                self._limbo_children[previous_parent].discard(trans_id)
             if previous_parent != parent or previous_name != name:
                 del self._limbo_children_names[previous_parent][previous_name]
 
